@@ -337,6 +337,25 @@ func runC02(c c02Case) kit.Result {
 				}
 			}
 		}
+		// a query parsed from the empty filter is the caller's to page; the next empty filter is everything again
+		all := idsOf(c.Data, "people")
+		q0, perr := ast.Parse(schema.People, "")
+		if perr != nil {
+			return fmt.Errorf("the empty filter is rejected: %v", perr)
+		}
+		q0.SetSkip(1)
+		q0.SetLimit(1)
+		one, oneSkip := int64(1), int64(1)
+		wantPage := kit.RefPage(all, kit.Paging{Skip: &oneSkip, Limit: &one})
+		ids0, count0, err0 := schema.People.QueryIdsC(tx, q0)
+		if err0 != nil || fmt.Sprint(ids0) != fmt.Sprint(wantPage) || int(count0) != len(all) {
+			return fmt.Errorf("the empty filter with skip 1 limit 1 set on the parsed query -> %v count %d (err %v), reference -> %v count %d", ids0, count0, err0, wantPage, len(all))
+		}
+		idsAll, countAll, errAll := schema.People.QueryIds(tx, "limit none")
+		idsE, countE, errE := schema.People.QueryIds(tx, "")
+		if errAll != nil || errE != nil || fmt.Sprint(idsAll) != fmt.Sprint(all) && len(all) > 0 || int(countAll) != len(all) || int(countE) != len(all) || len(all) <= 10 && fmt.Sprint(idsE) != fmt.Sprint(all) && len(all) > 0 {
+			return fmt.Errorf("after another query parsed from the empty filter was paged: the empty filter -> %v count %d (err %v), 'limit none' -> %v count %d (err %v), reference -> %v", idsE, countE, errE, idsAll, countAll, errAll, all)
+		}
 		return nil
 	})
 	res.Err = err
